@@ -46,11 +46,29 @@ def display_specs(order, labels, odim, insertions):
     return specs
 
 
+def _orders(part):
+    from cr.cube.enums import ORDER_FORMAT
+    for meth in ("row_order", "column_order"):
+        f = getattr(part, meth, None)
+        if f is None:
+            continue
+        for fmt in (ORDER_FORMAT.BOGUS_IDS, ORDER_FORMAT.SIGNED_INDEXES):
+            try:
+                f(fmt)
+            except Exception:  # noqa - see warm()
+                pass
+
+
 def warm(part, idxs):
     """Read a drawn selection of OTHER public outputs first (exceptions ignored): a value
     check then also notices outputs that disturb each other through cached intermediates."""
     from .observe import public_lazyproperties
     names = public_lazyproperties(type(part))
+    if idxs:
+        # the display order in its 'ins_N' rendering (a method, not a lazyproperty) is part
+        # of the access history too: requested first for every other non-empty warm-up
+        if abs(idxs[0]) % 2 == 0:
+            _orders(part)
     if idxs and idxs[0] < 0:
         # "all": every other public output, starting at a drawn offset
         k = (-idxs[0]) % len(names)
